@@ -630,7 +630,16 @@ impl<'a> IExec<'a> {
         let args: SVec<Val> = (self.h[wi].clone(), self.h[ti].clone(), a).into_val(&env);
         let entries = vec![AuthEntry { who: self.h[wi].clone(), root: AuthNode::new(&taddr, "mint_from", args.clone()) }];
         let ok = self.toks[t].minters.contains(&wi) && a >= 0;
+        let overflow = self.bal(t, ti).checked_add(a).is_none();
         let res = self.sim.call(&taddr, "mint_from", args, &entries, None);
+        if overflow {
+            // a credit past i128::MAX: the statement is silent, the token traps
+            if res.out.is_ok() {
+                self.add_bal(t, ti, a);
+                self.toks[t].supply = self.toks[t].supply.wrapping_add(a);
+            }
+            return;
+        }
         ctx.trace_str(res.out.class());
         ctx.count(&format!("op.minter_mint.{}.{}", if ok { "accept" } else { "refuse" }, res.out.class()));
         if !ctx.check(res.out.is_ok() == ok, &["C05", "C11"], "minter-mint/outcome-differs", || {
